@@ -293,10 +293,10 @@ impl<F: Read + Write + Seek> Flusher<F> for FlushBuffer {
             stream.buf_offset_from_start,
             stream.buffer.filled_slice(),
         )?;
-        debug_assert_eq!(
-            minialloc.read().unwrap().dir_entry(stream.stream_id).stream_len,
-            stream.total_len
-        );
+        // The directory entry has the last word on the length: it is longer
+        // than this handle thinks if another handle has grown the stream.
+        stream.total_len =
+            minialloc.read().unwrap().dir_entry(stream.stream_id).stream_len;
         Ok(())
     }
 }
@@ -356,7 +356,17 @@ fn write_data_to_stream<F: Read + Write + Seek>(
         }
         (dir_entry.start_sector, dir_entry.stream_len)
     };
-    debug_assert!(buf_offset_from_start <= old_stream_len);
+    if buf_offset_from_start > old_stream_len {
+        // The stream was shortened through another handle (or overwritten
+        // by create_stream) after this handle buffered its data.
+        invalid_input!(
+            "Cannot write at offset {} of stream {}, which is now only {} \
+             bytes long",
+            buf_offset_from_start,
+            stream_id,
+            old_stream_len
+        );
+    }
     let new_stream_len =
         old_stream_len.max(buf_offset_from_start + buf.len() as u64);
     let new_start_sector = if old_start_sector == consts::END_OF_CHAIN {
